@@ -27,9 +27,9 @@ func (r *Rng) Intn(n int) int {
 	}
 	return int(r.U64() % uint64(n))
 }
-func (r *Rng) Bool() bool      { return r.U64()&1 == 1 }
+func (r *Rng) Bool() bool        { return r.U64()&1 == 1 }
 func (r *Rng) Chance(p int) bool { return r.Intn(100) < p } // p percent
-func (r *Rng) Fork() *Rng      { return &Rng{r.U64()} }
+func (r *Rng) Fork() *Rng        { return &Rng{r.U64()} }
 
 // ---- Gallina printers ----
 func cZ(n int64) string {
@@ -57,7 +57,7 @@ func cBytes(b []byte) string {
 	sb.WriteByte(']')
 	return sb.String()
 }
-func cStr(s string) string { return cBytes([]byte(s)) }
+func cStr(s string) string        { return cBytes([]byte(s)) }
 func cList(items []string) string { return "[" + strings.Join(items, "; ") + "]" }
 func cOpt(s *string) string {
 	if s == nil {
@@ -124,8 +124,10 @@ func (r *Run) N(quick, thorough int) int {
 	return quick
 }
 
-func (r *Run) Coq(header, caseType, okFn string) { r.header, r.caseType, r.okFn = header, caseType, okFn }
-func (r *Run) Prelude(def string)                  { r.prelude = append(r.prelude, def) }
+func (r *Run) Coq(header, caseType, okFn string) {
+	r.header, r.caseType, r.okFn = header, caseType, okFn
+}
+func (r *Run) Prelude(def string) { r.prelude = append(r.prelude, def) }
 
 func hashOf(s string) string {
 	h := sha256.Sum256([]byte(s))
